@@ -62,6 +62,8 @@ VALUE_OPS = {
     "spline_buck4_two_params": "spline(as.buck 1000.0 0.3 0.0 >0.8 buck4_spline 1.0 1.1 >1.4 as.buck 0.0 1.0 32.0)",
     "spline_rmin_above_attach": "spline(as.buck 1000.0 0.3 0.0 >0.8 buck4_spline 3.0 >1.4 as.buck 0.0 1.0 32.0)",
     "spline_rmin_below_detach": "spline(as.buck 1000.0 0.3 0.0 >0.8 buck4_spline 0.5 >1.4 as.buck 0.0 1.0 32.0)",
+    "spline_rmin_equals_detach": "spline(as.buck 1000.0 0.3 0.0 >0.8 buck4_spline 0.8 >1.4 as.buck 0.0 1.0 32.0)",
+    "spline_rmin_equals_attach": "spline(as.buck 1000.0 0.3 0.0 >=0.8 buck4_spline 1.4 >=1.4 as.buck 0.0 1.0 32.0)",
     "spline_ranges_not_increasing": "spline(as.buck 1000.0 0.3 0.0 >1.4 exp_spline >0.8 as.buck 0.0 1.0 32.0)",
     "spline_equal_ranges": "spline(as.buck 1000.0 0.3 0.0 >1.4 exp_spline >1.4 as.buck 0.0 1.0 32.0)",
     "spline_unknown_type": "spline(as.buck 1000.0 0.3 0.0 >0.8 cubic_spline >1.4 as.buck 0.0 1.0 32.0)",
@@ -82,7 +84,8 @@ OTHER_OPS = [
     "formula_param_reserved_word", "formula_param_not_identifier",
     "table_non_numeric", "table_xy_odd", "table_x_y_mismatch", "table_x_only", "table_y_only", "table_xy_and_x",
     "table_no_data", "table_x_not_increasing", "table_x_repeated", "table_too_short", "table_unknown_interpolation",
-    "placeholder_unresolvable", "placeholder_bad_syntax", "placeholder_missing_section",
+    "placeholder_unresolvable", "placeholder_bad_syntax", "placeholder_missing_section", "placeholder_cycle",
+    "placeholder_self_reference",
     "ini_no_header", "ini_bare_line", "ini_unterminated_header",
 ]
 OPERATORS = sorted(VALUE_OPS) + OTHER_OPS
@@ -322,6 +325,16 @@ def mutate(case):
             t[1][0][1], t[1][1][1] = "0.0 1.0 2.0", "1.0 0.5 0.25"
         elif op == "table_unknown_interpolation":
             t[1].insert(0, ["interpolation", "quintic_spline"])
+    elif op in ("placeholder_cycle", "placeholder_self_reference"):
+        ents = _potdef_entries(secs)
+        if not ents:
+            return None
+        s, i = ents[site % len(ents)]
+        s[1][i][1] = "as.constant ${cyc_a}"
+        if op == "placeholder_cycle":
+            secs.insert(0, ["Variables", [["cyc_a", "${cyc_b}"], ["cyc_b", "${cyc_a}"]]])
+        else:
+            secs.insert(0, ["Variables", [["cyc_a", "${cyc_a}"]]])
     elif op.startswith("placeholder_"):
         ents = _potdef_entries(secs)
         if not ents:
